@@ -484,6 +484,7 @@ type c25Replay struct {
 	Thorough   bool       `json:"thorough,omitempty"`
 	Edge       bool       `json:"edge_bits_only,omitempty"`
 	System     string     `json:"section,omitempty"`
+	Calls      []c25Call  `json:"calls,omitempty"` // kind "retention": the call sequence (c25_retain_test.go)
 }
 
 // c25CheckTampers runs the whole tamper neighbourhood of one packet; only != nil restricts it to one tamper (replay).
@@ -673,6 +674,11 @@ func TestVerifC25(t *testing.T) {
 			r.HarnessError("replay: %v", err)
 			return
 		}
+		if rp.Kind == "retention" {
+			c25RetainReplay(r, rp)
+			r.Sample(rp)
+			return
+		}
 		e := r.NewEnum("replay")
 		sess, out, v := c25Handshake(rp.ClientSeed, rp.ServerSeed)
 		fmt.Printf("replay handshake %d/%d -> %s\n", rp.ClientSeed, rp.ServerSeed, out)
@@ -702,6 +708,9 @@ func TestVerifC25(t *testing.T) {
 		}
 		return
 	}
+
+	// ---- call sequences with retained results: first, while the process state is fresh
+	c25RetainSection(r)
 
 	// ---- key agreement: 16 x 16 seeds
 	e1 := r.NewEnum("key-agreement")
